@@ -359,6 +359,7 @@ func runC17(p *core.Prog, r *core.Report) {
 		idxF := core.FieldOf(mg, "moduleIndex")
 		nLook, nComplete := 0, 0
 		keyFields := map[string]bool{}
+		var inexact []string
 		core.Instrs(ng, func(in ssa.Instruction) {
 			lk, ok := in.(*ssa.Lookup)
 			if !ok || !lk.CommaOk {
@@ -368,6 +369,9 @@ func runC17(p *core.Prog, r *core.Report) {
 				return
 			}
 			nLook++
+			if why := exactReferenceKey(lk.Index, 0); why != "" {
+				inexact = append(inexact, why+" ("+p.Pos(lk.Pos())+")")
+			}
 			src := core.Trace(lk.Index, 1)
 			for _, n := range []string{"ModuleName", "Module"} {
 				if hasFieldNamed(src, n) {
@@ -430,6 +434,9 @@ func runC17(p *core.Prog, r *core.Report) {
 		r.Check(nLook >= 2 && nComplete == nLook && keyFields["ModuleName"] && keyFields["Module"], "C17.R3", "NewModuleGraph/edges-complete",
 			"every reference that resolves to a module — each map/store input and the block filter, a module's reference to itself included — becomes an edge of the graph tested for cycles (the layering loop waits on exactly these references)",
 			fmt.Sprintf("%d module-name lookups, %d add an edge whenever the name is found; keys cover inputs=%v blockFilter=%v", nLook, nComplete, keyFields["ModuleName"], keyFields["Module"]), p.Pos(ng.Pos()))
+		r.Check(len(inexact) == 0, "C17.R3", "NewModuleGraph/reference-keys-exact",
+			"the name looked up for an edge is the reference field itself (input module name, block filter module) for every module that has the reference — the layering loop reads these very fields, so a name filtered by kind or altered on the way leaves a reference without edge",
+			strings.Join(inexact, "; "), p.Pos(ng.Pos()))
 		// ... and every reference resolves: validation accepts a module only if each map/store input and the block filter
 		// (when present, whatever its name — the empty name included) names an existing module; a reference the graph has
 		// no vertex for is never placed, so the layering loop would wait for it for ever
@@ -917,4 +924,87 @@ func onlySelfExcluded(fn *ssa.Function, tb, fb *ssa.BasicBlock, idx ssa.Value, i
 	q := core.PathQuery{Fn: fn, CutInstr: isEdge, CutEdge: func(e core.Edge) bool { return containsEdge(selfEdges, e) }}
 	_, reach := q.CanReach(tb.Instrs[0], func(x ssa.Instruction) bool { return x == fb.Instrs[0] })
 	return !reach
+}
+
+// exactReferenceKey: "" unless some leaf of the key value hands out a reference field (ModuleName of an input, Module
+// of a block filter) only conditionally: a helper that returns the field on one path and an empty name on another path
+// on which the reference is present.  Direct field loads, the generated nil-safe getters and leaves that are no
+// reference at all (a source type, a params value, the initial "") are fine.
+func exactReferenceKey(v ssa.Value, depth int) string {
+	v = core.SkipConv(v)
+	if f, _ := core.LoadedField(v); f != nil {
+		return ""
+	}
+	switch x := v.(type) {
+	case *ssa.Phi:
+		for _, e := range x.Edges {
+			if why := exactReferenceKey(e, depth); why != "" {
+				return why
+			}
+		}
+		return ""
+	case *ssa.Const:
+		return ""
+	case *ssa.Call:
+		fn := core.StaticFn(x.Common())
+		if fn == nil || fn.Blocks == nil || depth > 1 {
+			return ""
+		}
+		// does the helper hand out a reference field at all?
+		isRef := false
+		core.Instrs(fn, func(in ssa.Instruction) {
+			if rt, ok := in.(*ssa.Return); ok && len(rt.Results) > 0 {
+				if f, _ := core.LoadedField(core.SkipConv(rt.Results[0])); f != nil && (f.Name() == "ModuleName" || f.Name() == "Module") {
+					isRef = true
+				}
+			}
+		})
+		if !isRef {
+			return ""
+		}
+		// edges of fn on which the reference is known to be absent
+		var absent []core.Edge
+		core.Instrs(fn, func(in ssa.Instruction) {
+			ifi, ok := in.(*ssa.If)
+			if !ok {
+				return
+			}
+			c, neg := core.StripNot(ifi.Cond)
+			bo, ok := c.(*ssa.BinOp)
+			if !ok || (bo.Op != token.EQL && bo.Op != token.NEQ) {
+				return
+			}
+			if k, ok := bo.Y.(*ssa.Const); !ok || !k.IsNil() {
+				return
+			}
+			// nil block filter, or the nil receiver of a generated (nil-safe) getter
+			f, _ := core.LoadedField(bo.X)
+			isRecv := len(fn.Params) > 0 && bo.X == ssa.Value(fn.Params[0])
+			if !isRecv && (f == nil || f.Name() != "BlockFilter") {
+				return
+			}
+			idx := 0
+			if (bo.Op == token.NEQ) != neg {
+				idx = 1
+			}
+			absent = append(absent, core.Edge{From: ifi.Block(), Idx: idx})
+		})
+		why := ""
+		core.Instrs(fn, func(in ssa.Instruction) {
+			rt, ok := in.(*ssa.Return)
+			if !ok || len(rt.Results) == 0 || why != "" {
+				return
+			}
+			res := core.SkipConv(rt.Results[0])
+			if f, _ := core.LoadedField(res); f != nil && (f.Name() == "ModuleName" || f.Name() == "Module") {
+				return
+			}
+			q := core.PathQuery{Fn: fn, CutEdge: func(e core.Edge) bool { return containsEdge(absent, e) }}
+			if _, reach := q.CanReach(nil, func(y ssa.Instruction) bool { return y == in }); reach {
+				why = core.FuncName(fn) + " returns something else than the reference field although the reference is present"
+			}
+		})
+		return why
+	}
+	return ""
 }
